@@ -139,5 +139,7 @@ func init() {
 			Exhaustive: true,
 		})
 	}
+	p.Engines = append(p.Engines, &core.Engine{Name: "set/large-sets", Count: core.FixedCount(300, 5000), CPULimit: 120,
+		Run: func(c *core.Ctx, idx int) { seq.RunC02Large(c) }})
 	core.Register(p)
 }
